@@ -537,6 +537,34 @@ return N`},
 local N = ...
 local ok = pcall(coroutine.wrap(function() return io.type(runtime.context()) end))
 return N`},
+	// multi-step library sequences: hooks observing functions that came out of
+	// string.dump / load (with and without strip), errors and tracebacks there
+	{name: "lib-hooks-on-reloaded-functions", maxN: 100, want: wantN, src: `
+local N = ...
+local function body(a, b)
+  local t = {}
+  for i = 1, 3 do t[i] = a + i end
+  if b then error("in reloaded function") end
+  return #t
+end
+for _, strip in ipairs{false, true} do
+  local g = load(string.dump(body, strip), "reloaded", "b")
+  for _, mask in ipairs{"l", "c", "r", "lcr"} do
+    local events = 0
+    debug.sethook(function(ev, line) events = events + 1 end, mask)
+    local ok1 = pcall(g, 1)
+    local ok2, e2 = pcall(g, 1, true)
+    local tb = debug.traceback("x", 1)
+    local info = debug.getinfo(g, "SlLu")
+    debug.sethook()
+    if not ok1 or ok2 then return -1 end
+  end
+  local co = coroutine.create(g)
+  debug.sethook(co, function() end, "l")
+  local ok3 = coroutine.resume(co, 1, true)
+  local tb2 = debug.traceback(co)
+end
+return N`},
 }
 
 var recNs = []int64{100, 199, 200, 201, 1000, 100000, 1000000}
